@@ -49,6 +49,29 @@ def _hand_made(P: Any) -> list[tuple[str, list[Any], list[list[Any]], list[Any]]
     return sets
 
 
+def _more_hand_made(P: Any) -> list[tuple[str, list[Any], list[list[Any]], list[Any]]]:
+    """Further sets for the ExplorerScript decompiler (strings with empty lines, switch-type ops used as plain operations, loops through the first op)."""
+    o, inf, pa = P.op, P.info, P.param
+    V = lambda n: pa("SsbOpParamConstant", n)  # noqa: E731
+    sets = []
+    sets.append(("strings-with-empty-lines", [inf("GENERIC")], [[
+        o(0, "hm_a", [pa("SsbOpParamConstString", "\nHello!")]), o(1, "hm_b", [pa("SsbOpParamConstString", "  Title\n\nBody")]),
+        o(2, "hm_c", [pa("SsbOpParamConstString", " x\n"), pa("SsbOpParamLanguageString", {"english": "\n\n", "german": "a\n\n b"})]), o(3, "End", [])]], [None]))
+    sets.append(("switch-type-ops-as-plain-operations", [inf("GENERIC")], [[
+        o(0, "hm_first", []), o(1, "ProcessSpecial", [1, 2, 3]), o(2, "hm_mid", []), o(3, "message_Menu", [V("MENU_X")]), o(4, "SwitchRandom", [5]), o(5, "hm_last", []),
+        o(6, "End", [])]], [None]))
+    sets.append(("irreducible-loop-through-first-op", [inf("GENERIC")], [[
+        o(0, "hm_top", []), o(1, "Branch", [V("$A"), 1, 4]), o(2, "hm_x", []), o(3, "Jump", [5]), o(4, "hm_y", []), o(5, "hm_z", []), o(6, "Branch", [V("$B"), 2, 4]),
+        o(7, "Branch", [V("$C"), 3, 0]), o(8, "Jump", [2])]], [None]))
+    sets.append(("loop-head-is-first-op-with-switch", [inf("GENERIC"), inf("GENERIC")], [
+        [o(0, "hm_p", []), o(1, "End", [])],
+        [o(2, "Switch", [V("$S")]), o(3, "Case", [1, 6]), o(4, "hm_q", []), o(5, "Jump", [2]), o(6, "hm_r", []), o(7, "Jump", [1])]], [None, None]))
+    sets.append(("shared-tail-and-routine-starting-with-jump", [inf("GENERIC"), inf("GENERIC")], [
+        [o(0, "Jump", [2]), o(1, "hm_dead", []), o(2, "hm_live", []), o(3, "Branch", [V("$A"), 1, 6]), o(4, "hm_l", []), o(5, "Jump", [7]), o(6, "hm_r", []), o(7, "hm_tail", []), o(8, "End", [])],
+        [o(9, "hm_s", []), o(10, "Return", [])]], [None, None]))
+    return sets
+
+
 def ssbs_roundtrip_rule(chk: Check, ctx: Any, rule: str, thorough: bool) -> None:
     from ..engine.pipeline import Pipeline
     from ..engine.sta import show
@@ -130,3 +153,53 @@ def ssbs_roundtrip_rule(chk: Check, ctx: Any, rule: str, thorough: bool) -> None
     chk.floor(rule, "routine sets taken through SsbScript and back", len(cases), 100 if not thorough else 1500)
     if not bad:
         chk.hold(rule, "ssbs-roundtrip:compiled-family", anchor, f"{n_comp} compiled routine sets come back op for op")
+
+
+def ssbs_sourcemap_rule(chk: Check, ctx: Any, rule: str) -> None:
+    """The SsbScript decompiler's own map (also used by the ExplorerScript decompiler's fallback): every op has an entry at the first character of its
+    statement - also when the statement spans several lines - and recompiling the text records the op on the same line."""
+    from ..engine.pipeline import Pipeline
+    repo = ctx.repo
+    P = Pipeline(repo, ctx.fold)
+    I = P.I
+    anchor = repo.func("explorerscript.ssb_script.ssb_converting.ssb_decompiler:SsbScriptSsbDecompiler._read_op")
+    n = 0
+    for name, infos, routines, names in _hand_made(P) + _more_hand_made(P):
+        key = f"ssbs-map:{name}"
+        n += 1
+        try:
+            text, sm = P.decompile_ssbs(infos, routines, names)
+            maps = sm.attrs.get("_mappings", {})
+            lines = text.split("\n")
+            problems = []
+            flat = [op for r in routines for op in r]
+            for op in flat:
+                off = op.attrs["offset"]
+                nm = op.attrs["op_code"].attrs["name"] if not op.cls.name == "SsbLabelJump" else op.attrs["_root"].attrs["op_code"].attrs["name"]
+                if op.cls.name == "SsbLabel":
+                    continue
+                ent = maps.get(off)
+                if ent is None:
+                    problems.append(f"op {off} {nm} has no entry")
+                    continue
+                ln, col = ent.attrs["line"], ent.attrs["column"]
+                if not (0 <= ln < len(lines)) or not lines[ln][col:].startswith(nm):
+                    problems.append(f"entry of op {off} {nm} points at line {ln}, column {col}: {lines[ln][col:col + 25]!r}" if 0 <= ln < len(lines) else f"entry of op {off} outside the text")
+            if not problems:
+                c2 = P.compile_ssbs(text)
+                m2 = c2.attrs["source_map"].attrs.get("_mappings", {})
+                flat2 = [op for r in c2.attrs["routine_ops"] for op in r]
+                real = [op for op in flat if op.cls.name != "SsbLabel"]
+                for a, b in zip(real, flat2):
+                    la = maps[a.attrs["offset"]].attrs["line"]
+                    eb = m2.get(b.attrs["offset"])
+                    if eb is None or eb.attrs["line"] != la:
+                        problems.append(f"op {a.attrs['offset']}: the decompiler's map says line {la}, recompiling the text says {eb.attrs['line'] if eb is not None else None}")
+                        break
+            chk.decide(rule, key, not problems, anchor, f"routine set `{name}`: " + "; ".join(problems[:3]) + f" -- text {text[:300]!r}",
+                       "every op has an entry at the first character of its statement; recompilation agrees on the line")
+        except PyExc as e:
+            chk.violation(rule, key, anchor, f"routine set `{name}`: the SsbScript decompiler or compiler fails with {e.cls_name}: {e.msg}")
+        except (Unsupported, AnalysisError) as e:
+            chk.unknown(rule, key, anchor, f"routine set `{name}`: abstract interpretation left the modelled subset: {e}")
+    chk.floor(rule, "routine sets whose SsbScript source map was compared", n, 10)
